@@ -31,10 +31,13 @@ pub fn weird_relations() -> Hierarchy<Arc<Relation>> {
     let t2: Schema = vec![("group", DataType::integer_interval(0, 10)), ("from", DataType::text_values(["x".to_string(), "y".to_string()]))].into_iter().collect();
     let r1: Arc<Relation> = Arc::new(Relation::table().name("order").path(["order"]).schema(t1).size(20).build());
     let r2: Arc<Relation> = Arc::new(Relation::table().name("table").path(["my schema", "table"]).schema(t2).size(20).build());
-    [(vec!["order".to_string()], r1), (vec!["my schema".to_string(), "table".to_string()], r2.clone()), (vec!["table".to_string()], r2)].into_iter().collect()
+    // a table in a schema whose name is derived from its path (no explicit name): it can only be referred to by the path
+    let t3: Schema = vec![("group", DataType::integer_interval(0, 10)), ("val", DataType::float_interval(0.0, 5.0))].into_iter().collect();
+    let r3: Arc<Relation> = Arc::new(Relation::table().path(["my schema", "other"]).schema(t3).size(20).build());
+    [(vec!["order".to_string()], r1), (vec!["my schema".to_string(), "table".to_string()], r2.clone()), (vec!["table".to_string()], r2), (vec!["my schema".to_string(), "other".to_string()], r3)].into_iter().collect()
 }
 
-const WEIRD: [&str; 8] = [
+const WEIRD: [&str; 10] = [
     "SELECT t.\"select\" AS \"from\", t.\"my col\" AS \"where\" FROM \"order\" AS t",
     "SELECT t.\"a-b\" AS \"x y\", t.\"Größe\" AS \"Ünï\", t.\"MixedCase\" AS \"MixedCase\" FROM \"order\" AS t WHERE t.\"select\" > 2",
     "SELECT t.\"group\" AS \"group\", COUNT(t.\"from\") AS \"count\" FROM \"my schema\".\"table\" AS t GROUP BY t.\"group\"",
@@ -43,6 +46,8 @@ const WEIRD: [&str; 8] = [
     "SELECT t.\"b`t\" AS \"t`b\" FROM \"order\" AS t",
     "SELECT t.\"select\" AS \"order\" FROM \"order\" AS t ORDER BY t.\"select\" LIMIT 3",
     "SELECT t.\"select\" AS \"UNION\" FROM \"order\" AS t UNION SELECT s.\"group\" AS \"UNION\" FROM \"table\" AS s",
+    "SELECT t.\"group\" AS g, SUM(t.val) AS s FROM \"my schema\".\"other\" AS t WHERE t.val > 1 GROUP BY t.\"group\"",
+    "SELECT a.\"select\" AS x, b.val AS y FROM \"order\" AS a JOIN \"my schema\".\"other\" AS b ON a.\"select\" = b.\"group\"",
 ];
 
 /// what a failure is keyed by in the known-findings file: the panic site, or the shape of the error message
